@@ -34,7 +34,7 @@ ASSUMPTIONS = [
 FEAT = gen.feat(
     p_self=0.1,
     ann={"c": 5, "o": 2.5, "u": 1.2, "x": 0.7, "h": 2.5, "ph": 1.5, "ss": 0.5, "d": 0.5, "i": 0.3},
-    bodies={"leaf": 3, "next": 4, "rec": 2, "fnext": 0.6, "next2": 0.5, "next_other": 0.6,
+    bodies={"next_try": 0.6, "leaf": 3, "next": 4, "rec": 2, "fnext": 0.6, "next2": 0.5, "next_other": 0.6,
             "rec_next": 0.8},
     p_kw=0.15, p_optional=0.15, ncorpus=(4, 8), nmeth=(3, 8), p_dup_sig=0.08, p_prio=0.3,
     swarm_drop=0.25,
@@ -176,12 +176,26 @@ def execute(scen):
         moved = {k: v for k, v in moved.items() if not _DEP.match(k)}
         return out, moved, sorted(set(sim.monitor_hits)), steps
 
+    import ovld.typemap as _tm
+
+    exc_codes = {_tm.MultiTypeMap.resolve.__code__: "resolve",
+                 _tm.MultiTypeMap.__missing__.__code__: "__missing__"}
+
     def warm_all():
         for i, c in enumerate(corpus):
-            out = h.w.call("f", c)
-            if out[0] == "ok":
+            # a call counts as "successfully handled" only if no resolution of a plain argument
+            # tuple failed inside it (a method may swallow the TypeError of a nested call whose
+            # combination has no method: that combination is legitimately resolved again each time)
+            sim = Sim()
+            sim.exc_codes = exc_codes
+            out, exc, _ = sim.run(lambda: h.w.call("f", c))
+            nested_failure = any(h_[1] for h_ in sim.exc_hits)
+            if exc is None and out[0] == "ok" and not nested_failure:
                 warmed.add(i)
                 stats["rewarms"] += 1
+            elif exc is None and out[0] == "ok":
+                stats["disturb"]["ok_with_swallowed_failure"] = \
+                    stats["disturb"].get("ok_with_swallowed_failure", 0) + 1
 
     # classes whose own type is plain `type` (a subclass of an ABC has metaclass ABCMeta)
     plain = [n for n, _, _ in spec["classes"]
@@ -416,6 +430,10 @@ def execute_threads(scen):
     sim = Sim(trace_world=True, step_cap=600_000, monitor_codes=codes,
               opcode_funcs=HOT_FUNCS if scen.get("opcode") else None)
     sim.monitor_tagged = True
+    import ovld.typemap as _tm
+
+    sim.exc_codes = {_tm.MultiTypeMap.resolve.__code__: "resolve",
+                     _tm.MultiTypeMap.__missing__.__code__: "__missing__"}
     n = len(scen["threads"])
     sched = Scheduler(sim, n, strategy=strategy, script=script)
     results = [[None] * len(ops) for ops in scen["threads"]]
@@ -438,6 +456,11 @@ def execute_threads(scen):
                      if json.dumps(ops[j], sort_keys=True) == json.dumps(c, sort_keys=True)
                      and results[tid][j] and results[tid][j][0] == "ok"]
             if not prior or not results[tid][i]:
+                continue
+            # (a swallowed nested failure makes the call recompute legitimately, see warm_all)
+            failing = {(t, tag) for _, plain, t, tag in sim.exc_hits if plain}
+            prior = [j for j in prior if (tid, j) not in failing]
+            if not prior or (tid, i) in failing:
                 continue
             repeats += 1
             hits = sorted({lab for (t, tag, lab) in sim.monitor_hits if t == tid and tag == i})
